@@ -21,7 +21,7 @@ PROP = 'C10'
 RUN_CLASSES = ('norecycle', 'recycle', 'lru', 'threads')
 SHRINK_BUDGET = 700
 
-C10_KINDS = ['list', 'set', 'vtuple', 'tuple', 'dict', 'tlist', 'tset', 'tseq', 'tvtuple', 'ttuple', 'tdict', 'tmap',
+C10_KINDS = ['tvar', 'tagged', 'list', 'set', 'vtuple', 'tuple', 'dict', 'tlist', 'tset', 'tseq', 'tvtuple', 'ttuple', 'tdict', 'tmap',
              'opt', 'union', 'lit', 'ann', 'tl', 'dl', 'cls', 'enum', 'gen', 'vol', 'range', 'frozenset']
 C10_SCALARS = ['int', 'float', 'str', 'bool', 'none', 'Fraction', 'Decimal', 'date', 'datetime', 'time',
                'PurePath', 'Pattern', 'bytes', 'complex', 'any', 'int', 'str', 'float']
@@ -146,6 +146,11 @@ def gen_knobs(rk, cls):
     return kn
 
 
+# extra operations appended to every mix: construct, mkdict, mutdict, dropdict
+EXTRA_OPS = ['construct', 'mkdict', 'mutdict', 'dropdict']
+EXTRA_WEIGHTS = {'balanced': [4, 2, 2, 1], 'drop': [2, 2, 1, 3], 'inline': [2, 1, 1, 1], 'handler': [5, 5, 5, 2],
+                 'subscript': [4, 1, 1, 1]}
+
 MIXES = {
     #            defclass build convert inline lookup serialise keep subscript drop gc tcleanup arm
     'balanced':  [4, 10, 14, 14, 5, 5, 4, 4, 9, 3, 3, 2],
@@ -156,6 +161,16 @@ MIXES = {
 }
 OPNAMES = ['defclass', 'build', 'convert', 'inline', 'lookup', 'serialise', 'keep', 'subscript', 'drop', 'gc',
            'typing_cleanup', 'arm']
+
+
+DICT_CONVS = {'int': ['DoubleInt', 'IncInt'], 'str': ['UpperStr', 'TagStr'], 'float': ['NegFloat']}
+
+
+def _dict_entries(ro, knobs):
+    tys = ro.sample(['int', 'str', 'float'], ro.choice([1, 1, 2]))
+    if knobs.get('hpair'):
+        tys = ['int' if 'int' in knobs['hpair'][0] else 'str']
+    return [[ty, ro.choice(DICT_CONVS[ty])] for ty in tys]
 
 
 def resolve(ast, root_asts):
@@ -170,12 +185,14 @@ def resolve(ast, root_asts):
         return ['ann', resolve(ast[1], root_asts), ast[2]]
     if ast[0] == 'gen':
         return ['gen', ast[1]] + [resolve(a, root_asts) for a in ast[2:]]
+    if ast[0] == 'tagged':
+        return ast[:3] + [resolve(a, root_asts) for a in ast[3:]]
     return [ast[0]] + [resolve(a, root_asts) for a in ast[1:]]
 
 
 def _inject_refs(rng, ast, roots, depth=0):
     """With some probability replace a sub-expression by a reference to an existing root."""
-    if not roots or ast[0] in ('s', 'cls', 'enum', 'lit', 'tv', 'ref', 'set', 'tset', 'frozenset', 'ann', 'range', 'gen'):
+    if not roots or ast[0] in ('s', 'cls', 'enum', 'lit', 'tv', 'ref', 'set', 'tset', 'frozenset', 'ann', 'range', 'gen', 'tagged'):
         return ast
     if ast[0] == 'dl':
         return ['dl', [[n, _inject_refs(rng, a, roots, depth + 1)] for (n, a) in ast[1]]]
@@ -204,7 +221,10 @@ def gen_plan(seed: int, cls: str) -> dict:
     ops = []
     nroot = ninst = ncls = 0
     nops = ro.choice([4, 8, 12, 16, 24, 32, 40])
-    weights = MIXES[knobs['mix']]
+    weights = MIXES[knobs['mix']] + EXTRA_WEIGHTS[knobs['mix']]
+    opnames = OPNAMES + EXTRA_OPS
+    hdicts = {}
+    ndict = 0
     class_customs = CLASS_CUSTOMS if knobs['mix'] == 'handler' else [None, None, None] + CLASS_CUSTOMS
     hspecs = list(HANDLER_SPECS)
     if knobs.get('hpair'):
@@ -219,9 +239,14 @@ def gen_plan(seed: int, cls: str) -> dict:
     def probe(ast):
         return tg.enc(tg.sample_value(ast, sym, ro, valid_p=knobs['valid_p']))
 
+    def pick_custom():
+        if hdicts and ro.random() < 0.35:
+            return ['dictref', ro.choice(sorted(hdicts))]
+        return ro.choice(hspecs)
+
     prologue = ['defclass', 'defclass'] if knobs.get('hpair') else []
     while len(ops) < nops:
-        name = prologue.pop(0) if prologue else ro.choices(OPNAMES, weights)[0]
+        name = prologue.pop(0) if prologue else ro.choices(opnames, weights)[0]
         if name == 'defclass':
             if ncls >= 5:
                 continue
@@ -234,7 +259,8 @@ def gen_plan(seed: int, cls: str) -> dict:
                 spec = tg.gen_class_spec(ro, sym, f'C{ncls}', [k for k in kinds if k not in ('tl', 'dl')],
                                          C10_SCALARS, custom_specs=class_customs,
                                          nest_p=0.8 if knobs.get('hpair') else 0.15,
-                                         generic_p=0.1 if knobs.get('hpair') else 0.25)
+                                         generic_p=0.1 if knobs.get('hpair') else 0.25,
+                                         tag_p=0.5 if 'tagged' in kinds else 0.0)
                 if knobs.get('hpair') and spec['fields'] and not spec.get('tv') and not spec.get('base'):
                     f0 = spec['fields'][0]
                     f0['t'] = ['s', 'int' if 'int' in knobs['hpair'][0] else 'str']
@@ -262,15 +288,15 @@ def gen_plan(seed: int, cls: str) -> dict:
             if not roots:
                 continue
             r = ro.choice(sorted(roots))
-            ops.append({'op': 'convert', 'root': r, 'data': probe(roots[r]), 'custom': ro.choice(hspecs)})
+            ops.append({'op': 'convert', 'root': r, 'data': probe(roots[r]), 'custom': pick_custom()})
         elif name == 'inline':
             ast = tg.gen_type(ro, sym, kinds, C10_SCALARS, max_depth=2)
             ast = _inject_refs(ro, ast, roots)
-            ops.append({'op': 'inline', 't': ast, 'data': probe(resolve(ast, roots)), 'custom': ro.choice(hspecs)})
+            ops.append({'op': 'inline', 't': ast, 'data': probe(resolve(ast, roots)), 'custom': pick_custom()})
         elif name == 'lookup':
             if not roots:
                 continue
-            ops.append({'op': 'lookup', 'root': ro.choice(sorted(roots)), 'custom': ro.choice(hspecs)})
+            ops.append({'op': 'lookup', 'root': ro.choice(sorted(roots)), 'custom': pick_custom()})
         elif name == 'keep':
             if not roots:
                 continue
@@ -324,6 +350,35 @@ def gen_plan(seed: int, cls: str) -> dict:
             for i in [i for (i, rr) in insts.items() if rr == r]:
                 pass   # instances stay: they keep their class alive (part of the lifetime space)
             ops.append({'op': 'drop', 'root': r})
+        elif name == 'construct':
+            cr = [r for (r, a) in sorted(roots.items()) if a[0] == 'cls' and 'tuple' not in ((sym.class_specs[a[1]].get('opts') or {}).get('in_format') or [])]
+            if not cr:
+                continue
+            r = ro.choice(cr)
+            spec = sym.class_specs[roots[r][1]]
+            kwargs = {}
+            for f in tg.effective_fields(spec, {}, sym):
+                if ('d' in f or 'df' in f) and ro.random() < 0.4:
+                    continue
+                kwargs[f['n']] = tg.enc(tg.sample_value(f['t'], sym, ro, valid_p=knobs['valid_p']))
+            ops.append({'op': 'construct', 'root': r, 'kwargs': kwargs})
+        elif name == 'mkdict':
+            if ndict >= 3:
+                continue
+            dn = f'h{ndict}'
+            ndict += 1
+            hdicts[dn] = True
+            ops.append({'op': 'mkdict', 'name': dn, 'entries': _dict_entries(ro, knobs)})
+        elif name == 'mutdict':
+            if not hdicts:
+                continue
+            ops.append({'op': 'mutdict', 'name': ro.choice(sorted(hdicts)), 'entries': _dict_entries(ro, knobs)})
+        elif name == 'dropdict':
+            if not hdicts:
+                continue
+            dn = ro.choice(sorted(hdicts))
+            del hdicts[dn]
+            ops.append({'op': 'dropdict', 'name': dn})
         elif name == 'gc':
             ops.append({'op': 'gc'})
         elif name == 'typing_cleanup':
@@ -426,6 +481,7 @@ class Exec:
         self.world = tg.World()
         self.world.faulty = tg.make_faulty_pool()
         self.insts = {}
+        self.hdicts = {}
         self.inst_src = {}
         self.root_asts = {}
         self.def_history = []
@@ -456,6 +512,7 @@ class Exec:
         self.seams.restore()
         self.world.clear()
         self.insts.clear()
+        self.hdicts.clear()
         gc.enable()
 
     # -- the two sides of the oracle
@@ -667,7 +724,47 @@ class Exec:
         self.trace.add('alloc', len(self.alloc.decisions), h64(canon(self.alloc.decisions)) % 10**12)
 
     def handlers(self, spec):
+        if spec is not None and spec[0] == 'dictref':
+            # a dict object the application keeps and passes again and again (and may mutate in between)
+            return self.hdicts.get(spec[1])
         return tg.build_handlers(spec, self.world.faulty)
+
+    def op_mkdict(self, i, op):
+        convs = tg._custom_converters()
+        self.hdicts[op['name']] = {tg.SCALARS[ty]: convs[cn] for (ty, cn) in op['entries']}
+        self.trace.add('mkdict', i, op['name'])
+
+    def op_mutdict(self, i, op):
+        d = self.hdicts.get(op['name'])
+        if d is None:
+            self.trace.add('skip', i)
+            return
+        convs = tg._custom_converters()
+        d.clear()
+        d.update({tg.SCALARS[ty]: convs[cn] for (ty, cn) in op['entries']})
+        self.count('handler_dict_mutated')
+        self.trace.add('mutdict', i, op['name'])
+
+    def op_dropdict(self, i, op):
+        if op['name'] not in self.hdicts:
+            self.trace.add('skip', i)
+            return
+        free0 = len(self.alloc.free)
+        self.alloc.release_literal(self.hdicts, op['name'])
+        self.trace.add('dropdict', i, op['name'], len(self.alloc.free) - free0)
+
+    def op_construct(self, i, op):
+        root = op['root']
+        if root not in self.world.refs:
+            self.trace.add('skip', i)
+            return
+        kwargs = {k: tg.dec(v) for (k, v) in op['kwargs'].items()}
+
+        def mk(world, insts):
+            T = world.refs[root]
+            return lambda: T(**kwargs)
+        self.compare(f"<{root}>(**kwargs) [constructor]", mk, deps=[('root', root)])
+        self.count('op_construct')
 
     def op_defclass(self, i, op):
         try:
@@ -1410,7 +1507,7 @@ def shrink_candidates(plan, res):
 
 
 def _subexprs(ast):
-    if ast[0] in ('s', 'cls', 'enum', 'lit', 'ref', 'tv'):
+    if ast[0] in ('s', 'cls', 'enum', 'lit', 'ref', 'tv', 'tagged'):
         if ast != ['s', 'int']:
             yield ['s', 'int']
         return
